@@ -1115,10 +1115,12 @@ fn c13_poseidon_and_sponge() {
 }
 
 // ---- C20: conditional and cyclic recursion ----
-fn c20_inner(with_lookup: bool, x: u64) -> (CircuitData<F, PC, D>, ProofWithPublicInputs<F, PC, D>) {
+fn c20_inner(with_lookup: bool, x: u64) -> (CircuitData<F, PC, D>, ProofWithPublicInputs<F, PC, D>) { c20_inner_cfg(with_lookup, x, CircuitConfig::standard_recursion_config()) }
+
+fn c20_inner_cfg(with_lookup: bool, x: u64, cfg: CircuitConfig) -> (CircuitData<F, PC, D>, ProofWithPublicInputs<F, PC, D>) {
     use crate::gates::noop::NoopGate;
     use std::sync::Arc;
-    let mut builder = CircuitBuilder::<F, D>::new(CircuitConfig::standard_recursion_config());
+    let mut builder = CircuitBuilder::<F, D>::new(cfg);
     let mut pw = PartialWitness::new();
     let t = builder.add_virtual_target();
     builder.register_public_input(t);
@@ -1284,7 +1286,10 @@ fn c20_cyclic_base_proof() {
 fn c20_proof_or_dummy() {
     let mut bad = Vec::new();
     let mut cases = 0usize;
-    let (data, p_ok) = c20_inner(false, 5);
+    // inner circuit shapes: the outer circuit's own FRI cap height (4) and smaller ones
+    for inner_cap in [4usize, 3, 1] {
+    let mut icfg = CircuitConfig::standard_recursion_config(); icfg.fri_config.cap_height = inner_cap;
+    let (data, p_ok) = c20_inner_cfg(false, 5, icfg);
     let mut p_bad = p_ok.clone(); p_bad.public_inputs[1] += F::ONE;
     let mut p_bad2 = p_ok.clone(); p_bad2.proof.openings.wires[0] += FE::ONE;
     let mut wrong_vd = data.verifier_only.clone(); wrong_vd.circuit_digest.elements[0] += F::ONE;
@@ -1293,7 +1298,8 @@ fn c20_proof_or_dummy() {
     let vd = builder.add_virtual_verifier_data(data.common.config.fri_config.cap_height);
     let b = builder.add_virtual_bool_target_safe();
     let built = catch_unwind(AssertUnwindSafe(move || { builder.conditionally_verify_proof_or_dummy::<PC>(b, &pt, &vd, &data.common).map(|_| (builder.build::<PC>(), pt, vd, data)) }));
-    let Ok(Ok((outer, pt, vd, data))) = built else { finish("c20_proof_or_dummy", 1, vec!["building a circuit with conditionally_verify_proof_or_dummy failed".into()]); return; };
+    cases += 1;
+    let Ok(Ok((outer, pt, vd, data))) = built else { bad.push(format!("inner cap height {inner_cap}: building a circuit with conditionally_verify_proof_or_dummy failed / PANICKED")); continue; };
     let good = &data.verifier_only;
     for (name, cond, proof, vdata, expect) in [
         ("condition true, valid proof", true, &p_ok, good, true),
@@ -1314,7 +1320,8 @@ fn c20_proof_or_dummy() {
             outer.verify(p)
         }));
         let accepted = matches!(r, Ok(Ok(())));
-        if accepted != expect { bad.push(format!("{name}: outer circuit {}", if accepted { "ACCEPTED" } else { "not provable / not accepted" })); }
+        if accepted != expect { bad.push(format!("inner cap height {inner_cap}: {name}: outer circuit {}", if accepted { "ACCEPTED" } else { "not provable / not accepted" })); }
+    }
     }
     finish("c20_proof_or_dummy", cases, bad);
 }
@@ -1642,6 +1649,8 @@ impl<'a> Adv<'a> {
             for (name, st) in [
                 ("lookup running sums started at a chosen offset", Strategy { offset_lookup_sums: true, ..Strategy::default() }),
                 ("lookup running sums started at a chosen offset, quotient truncated", Strategy { offset_lookup_sums: true, lenient_quotient_truncation: true, ..Strategy::default() }),
+                ("table-check polynomial started at the value that makes it end at the declared table", Strategy { offset_lookup_re: true, ..Strategy::default() }),
+                ("table-check polynomial and running sums both started at chosen values", Strategy { offset_lookup_re: true, offset_lookup_sums: true, ..Strategy::default() }),
             ] {
                 set(st);
                 let o = self.outcome();
@@ -1777,6 +1786,37 @@ fn c02_witness_corruption() {
     finish("c02_witness_corruption", cases, bad);
 }
 
+// C02: the range / bit-decomposition gadgets mean what they say: values inside the range are provable, the first values outside are not
+#[test]
+fn c02_range_gadgets() {
+    let mut bad = Vec::new();
+    let mut cases = 0usize;
+    let p: u64 = 0xFFFF_FFFF_0000_0001;
+    for n in [1usize, 2, 8, 31, 32, 33, 62, 63] {
+        for kind in 0..3 {
+            // kind 0: range_check(x, n); 1: split_le(x, n) (bits are public inputs); 2: low_bits(x, n, 64) is exempt from the range (only the low bits are taken)
+            let mut b = CircuitBuilder::<F, D>::new(CircuitConfig::standard_recursion_config());
+            let x = b.add_virtual_target();
+            b.register_public_input(x);
+            match kind { 0 => b.range_check(x, n), 1 => { let bits = b.split_le(x, n); for bt in bits { b.register_public_input(bt.target); } } _ => { if n > 32 { continue; } let lo = b.low_bits(x, n, 64); for bt in lo { b.register_public_input(bt.target); } } }
+            let data = b.build::<PC>();
+            let top: u128 = 1u128 << n;
+            let mut vals: Vec<(u64, bool)> = vec![(0, true), (1, true), ((top - 1) as u64, true)];
+            if kind != 2 { for v in [top, top + 5, top << 1, 1u128 << 40, 1u128 << 63, (p - 1) as u128] { if v >= top && v < p as u128 { vals.push((v as u64, false)); } } }
+            else { vals.push((top as u64, true)); vals.push((p - 1, true)); }
+            for (v, ok) in vals {
+                cases += 1;
+                let r = catch_unwind(AssertUnwindSafe(|| -> anyhow::Result<Vec<F>> { let mut pw = PartialWitness::new(); pw.set_target(x, F::from_canonical_u64(v))?; let pr = data.prove(pw)?; let pis = pr.public_inputs.clone(); data.verify(pr)?; Ok(pis) }));
+                let accepted = matches!(r, Ok(Ok(_)));
+                let what = ["range_check", "split_le", "low_bits"][kind];
+                if accepted != ok { bad.push(format!("{what}(x, {n}) with x = {v:#x}: {}", if accepted { "a proof was produced and ACCEPTED although x >= 2^n" } else { "not provable although x is in range" })); }
+                if let (Ok(Ok(pis)), true) = (&r, kind >= 1) { for (k, bit) in pis[1..].iter().enumerate() { if bit.to_canonical_u64() != (v >> k) & 1 { bad.push(format!("{what}(x, {n}) with x = {v:#x}: bit {k} is {}", bit.to_canonical_u64())); break; } } }
+            }
+        }
+    }
+    finish("c02_range_gadgets", cases, bad);
+}
+
 // a generator that does nothing (stands in for a generator a malicious prover has removed)
 #[derive(Debug)]
 struct IdleGen;
@@ -1885,6 +1925,7 @@ fn c08_lookups() {
                     cases += 1;
                     let o = a.outcome();
                     if o == "ACCEPTED" || o == "verifier PANICKED" { bad.push(format!("{tag}: table {t}: row of entry ({key}, {val}) rewritten to ({key}, {}) in the trace and looked up -> {o}", val as u64 + 7)); }
+                    for (how, o2) in a.outcomes_lookup_adversarial() { cases += 1; if o2 == "ACCEPTED" || o2 == "verifier PANICKED" { bad.push(format!("{tag}: table {t}: row of entry ({key}, {val}) rewritten to ({key}, {}) in the trace and looked up, prover strategy: {how} -> {o2}", val as u64 + 7)); } }
                 }
             }
             start += nl;
